@@ -117,6 +117,12 @@ class DiGraphEx(nx.DiGraph):
         if target_nodes is not None:
             graph = graph.minimal_induced_subgraph(target_nodes).copy()
 
+        # networkx's subgraph(...).copy() builds a fresh instance: the attribute tables must follow
+        graph.tag = deepcopy(self.tag)
+        graph.debug = deepcopy(self.debug)
+        graph.setup = deepcopy(self.setup)
+        graph.compound_priority = deepcopy(self.compound_priority)
+
         return graph
 
     @property
